@@ -105,6 +105,15 @@ def source_digest(funcs):
     return out
 
 
+def _jsonable(o):
+    """dicts with non-string keys (tuples of model values) -> string keys, recursively"""
+    if isinstance(o, dict):
+        return {(k if isinstance(k, (str, int, float, bool)) or k is None else str(k)): _jsonable(v) for k, v in o.items()}
+    if isinstance(o, (list, tuple, set)):
+        return [_jsonable(v) for v in o]
+    return o
+
+
 def run_property(mod, tier='quick', seed=0):
     t_start = time.time()
     prop = mod.PROPERTY
@@ -142,10 +151,28 @@ def run_property(mod, tier='quick', seed=0):
             need_bounded_search.append(r)
     # ---------------- bounded part (always runs: it is also the replay harness)
     bounded = None
+    bounded_crashed = False
     try:
         bounded = mod.bounded(tier, seed) if hasattr(mod, 'bounded') else None
     except Exception as e:                                      # noqa
-        notes.append('bounded layer crashed: %s: %s\n%s' % (type(e).__name__, e, traceback.format_exc()[-1200:]))
+        tb = traceback.extract_tb(e.__traceback__)
+        repo_root = os.path.realpath(os.environ.get('PANQEC_REPO', '/repo'))
+        inner = ''
+        for fr in reversed(tb):         # innermost frame that is either repository code or harness code (third-party frames skipped)
+            fn_ = os.path.realpath(fr.filename)
+            if fn_.startswith(repo_root + os.sep) or fn_.startswith(os.path.realpath(VERIF) + os.sep):
+                inner = fn_
+                break
+        trace = traceback.format_exc()[-1500:]
+        if os.path.realpath(inner).startswith(repo_root + os.sep):
+            # the real code raised on an input the bounded harness builds inside the contract's domain: a violation of the
+            # no-raise clause of the run-time contract, reproducible by re-running the harness (replay does exactly that)
+            violations.append(dict(obligation='%s.bounded.noraise' % prop, input=dict(bounded_crash=True, tier=tier, seed=seed),
+                                   detail='the real code raised %s: %s inside the bounded harness\n%s' % (type(e).__name__, e, trace),
+                                   how='the real code raised on an in-domain input of the bounded harness'))
+        else:
+            bounded_crashed = True
+        notes.append('bounded layer stopped: %s: %s\n%s' % (type(e).__name__, e, trace))
     if bounded:
         seen_b = set()
         for v in bounded.get('violations', []):
@@ -179,9 +206,9 @@ def run_property(mod, tier='quick', seed=0):
     for k, v in enumerate(violations):
         path = os.path.join('replays', '%s-%s.json' % (prop, ''.join(ch if ch.isalnum() or ch in '._-' else '_' for ch in str(v['obligation']))[:80]))
         with open(os.path.join(VERIF, path), 'w') as f:
-            json.dump(dict(property=prop, obligation=v['obligation'], how=v['how'], input=v.get('input'), detail=v.get('detail'),
-                           solver_model=v.get('model'), solver=v.get('solver'),
-                           rerun='cd /verif && ./check %s --replay %s' % (prop, path)), f, indent=1, default=str)
+            json.dump(_jsonable(dict(property=prop, obligation=v['obligation'], how=v['how'], input=v.get('input'), detail=v.get('detail'),
+                                     solver_model=v.get('model'), solver=v.get('solver'),
+                                     rerun='cd /verif && ./check %s --replay %s' % (prop, path))), f, indent=1, default=str)
         line = 'VIOLATION property=%s replay=%s' % (prop, path)
         if v.get('nofail'):
             line += ' obligation=%s no-failing-input-found' % v['obligation']
@@ -240,12 +267,14 @@ def run_property(mod, tier='quick', seed=0):
         'wall_s': round(time.time() - t_start, 2), 'violations': len(violations),
     }
     with open(os.path.join(VERIF, 'evidence', '%s.json' % prop), 'w') as f:
-        json.dump(ev, f, indent=1, default=str)
+        json.dump(_jsonable(ev), f, indent=1, default=str)
     print('%s tier=%s obligations=%d discharged=%d refuted=%d lost=%d bounded_evals=%s known=%d violations=%d wall=%.1fs' % (
         prop, tier, n_ob, len(discharged), len(refuted), len(lost), (bounded or {}).get('evaluations'), len(seen_known),
         len(violations), time.time() - t_start))
     if violations:
         return 1
+    if bounded_crashed:
+        return 3            # checker error inside the harness itself: nothing is claimed
     if n_ob == 0 and not bounded:
         return 2
     if lost and not bounded:
@@ -265,6 +294,14 @@ def main(argv=None):
     mod = importlib.import_module('props.%s' % a.prop)
     if a.replay:
         data = json.load(open(a.replay if os.path.isabs(a.replay) else os.path.join(VERIF, a.replay)))
+        if (data.get('input') or {}).get('bounded_crash'):
+            try:
+                mod.bounded(data['input'].get('tier', 'quick'), data['input'].get('seed', seed))
+                r = dict(confirmed=False, detail='the bounded harness completes without an exception on this tree')
+            except Exception as e:      # noqa
+                r = dict(confirmed=True, detail='%s: %s\n%s' % (type(e).__name__, e, traceback.format_exc()[-1500:]))
+            print(json.dumps(r, indent=1, default=str))
+            return 1 if r.get('confirmed') else 0
         r = mod.replay_file(data) if hasattr(mod, 'replay_file') else {'detail': 'no native replay for this property', 'confirmed': None}
         print(json.dumps(r, indent=1, default=str))
         return 1 if r.get('confirmed') else 0
